@@ -130,6 +130,23 @@ def make_base(alg, kind, enc, form, aad, which=0, plaintext=PLAINTEXT, cty="a"):
     return _B[ck].clone()
 
 
+def leading_zero_base(alg, kind, enc, form, aad):
+    """A valid token whose RSA-encrypted key begins with a zero octet (one RSA result in 256 does); found by encrypting again and again."""
+    ck = ("lz", alg, kind, enc, form, aad)
+    if ck not in _B:
+        found = None
+        for i in range(20000):
+            t = make_base(alg, kind, enc, form, aad, cty="lz%d" % i)
+            _B.pop((alg, kind, enc, form, aad, 0, PLAINTEXT, "lz%d" % i), None)
+            if t.recipients[0]["ek"][:1] == b"\0":
+                found = t
+                break
+        if found is None:
+            raise AssertionError("no RSA result with a leading zero octet in 20000 encryptions")
+        _B[ck] = found
+    return _B[ck].clone()
+
+
 def decrypt_keys(kind, form, which=0, n=None, wrong=False):
     from joserfc.jwk import KeySet
     if form == "general":
@@ -149,7 +166,12 @@ def flip(data, bit):
 
 SEGS = ["protected", "encrypted_key", "iv", "ciphertext", "tag", "aad"]
 FAULTS = ["none"] + ["bitflip-" + s for s in SEGS] + ["respell-protected", "tag-length", "iv-length", "nonempty-encrypted-key",
-                                                      "wrong-recipient-key", "wrong-sender-key", "epk-edit", "splice", "drop-encrypted-key", "boundary-shift"]
+                                                      "wrong-recipient-key", "wrong-sender-key", "epk-edit", "splice", "drop-encrypted-key", "boundary-shift",
+                                                      "encrypted-key-length", "unauthenticated-member"]
+# a plaintext that is itself a raw DEFLATE stream (an application that encrypts blobs it compressed itself)
+import zlib as _zlib
+_c = _zlib.compressobj(9, _zlib.DEFLATED, -15)
+DEFLATED_PLAINTEXT = _c.compress(b"the inner content of an already compressed blob " * 6) + _c.flush()
 
 
 def get_seg(tok, seg, ridx=0):
@@ -217,6 +239,33 @@ def apply_fault(ctx, tok, fault, alg, kind, enc, form, aad, stride=1, tag=""):
         else:
             tok.iv, tok.ct = tok.iv[:-k], tok.iv[-k:] + tok.ct
         return f"{k} octets moved {d}", over
+    if fault == "encrypted-key-length":
+        if alg in ("dir", "ECDH-ES", "ECDH-1PU"):
+            return None
+        ridx = ctx.choose(tag + "recipient", range(len(tok.recipients))) if len(tok.recipients) > 1 else 0
+        ek = tok.recipients[ridx]["ek"]
+        how = ctx.choose(tag + "length_change", ["strip-leading-zero-octets", "strip-first-octet", "strip-last-octet", "prepend-00", "append-00", "prepend-two-00"])
+        if how == "strip-leading-zero-octets":
+            if ek[:1] != b"\0":
+                return None
+            new = ek.lstrip(b"\0")
+        else:
+            new = {"strip-first-octet": ek[1:], "strip-last-octet": ek[:-1], "prepend-00": b"\0" + ek, "append-00": ek + b"\0", "prepend-two-00": b"\0\0" + ek}[how]
+        tok.recipients[ridx]["ek"] = new
+        return f"encrypted key of recipient {ridx}: {how} ({len(ek)} -> {len(new)} octets)", over
+    if fault == "unauthenticated-member":
+        # members that only count when integrity protected, planted where nothing protects them
+        if form == "compact":
+            return None
+        pos = ctx.choose(tag + "position", ["unprotected", "recipient"])
+        other_enc = "A128GCM" if enc != "A128GCM" else "A256GCM"
+        name, value = ctx.choose(tag + "member", [("zip", "DEF"), ("enc", other_enc), ("zip", "GZIP"), ("cty", "evil"), ("typ", "other")])
+        if pos == "unprotected":
+            tok.unprotected = {**(tok.unprotected or {}), name: value}
+        else:
+            ridx = ctx.choose(tag + "recipient", range(len(tok.recipients))) if len(tok.recipients) > 1 else 0
+            tok.recipients[ridx]["header"] = {**(tok.recipients[ridx]["header"] or {}), name: value}
+        return f"{name}={value!r} planted in the {pos} header", over
     if fault == "nonempty-encrypted-key":
         if alg not in ("dir", "ECDH-ES", "ECDH-1PU"):
             return None
@@ -332,8 +381,12 @@ def h_faults(ctx):
     alg, kind, enc = ctx.choose("alg/key/enc", bases())
     form = ctx.choose("form", FORMS)
     aad = ctx.choose("aad", [None, b"aad!"] if form != "compact" else [None])
-    base = make_base(alg, kind, enc, form, aad)
     fault = ctx.deviate("fault", FAULTS)
+    plaintext = DEFLATED_PLAINTEXT if fault == "unauthenticated-member" else PLAINTEXT
+    if fault == "encrypted-key-length" and alg.startswith("RSA"):
+        base = leading_zero_base(alg, kind, enc, form, aad)
+    else:
+        base = make_base(alg, kind, enc, form, aad, plaintext=plaintext)
     tok = base.clone()
     desc, over = "unfaulted", {}
     if fault != "none":
